@@ -163,6 +163,34 @@ def register(reg):
 
     register_compress(reg)
 
+    # ------------------------------------------------------------------ is_sub_mask (C16.3: "everything outside the hull is masked")
+    def sub_spec(a, b):
+        """is_sub_mask(a, b): b masks (at least) every location that a masks"""
+        ismask = lambda v: is_arr(v) or v is NOMASK
+        if not ismask(a) or not ismask(b):
+            return z3.BoolVal(False)
+        if a is NOMASK:
+            return z3.BoolVal(True)
+        if b is NOMASK:
+            return Not(any_true(a))
+        if a.rank != b.rank:
+            return z3.BoolVal(False)
+        # stated over the flattened positions p (unravel_C is a bijection of [0, N) onto the index box: assumed law of pyvc/arr.py)
+        p_ = z3.Int("smp")
+        fa, fb = arr.ravel_arr(a, "C"), arr.ravel_arr(SArr(a.shape, b.at, "bool", ident=b.ident), "C")
+        return And(*[x == y for x, y in zip(a.shape, b.shape)],
+                   z3.ForAll([p_], Implies(And(0 <= p_, p_ < fa.shape[0], fa.at((p_,))), fb.at((p_,)))))
+
+    for ka, a in KA.items():
+        for kb, b in KB.items():
+            reg.add(Contract(
+                f"{M}.is_sub_mask", props=["C16.3", "C18.3"], params={"mask": a, "submask": b}, result=Bool, pure=True, modifies=lambda ctx: [],
+                requires=lambda ctx, a=a, b=b: And(*[n >= 0 for v in (a, b) if is_arr(v) for n in v.shape]),
+                ensures=lambda ctx, r, a=a, b=b: {"sub-mask <=> covers every masked location": r.e == sub_spec(a, b)},
+                axioms=lambda ctx, a=a: (arr.sel_axioms(arr.ravel_arr(a, "C")) if is_arr(a) else []) + arr.ravel_axioms(),
+                name=f"is_sub_mask<{ka},{kb}>", primary=False,
+            ))
+
 
 # =================================================================================================
 # to_compressed / from_compressed (C18.1)
@@ -468,7 +496,24 @@ def install(ex):
                         ident=f"rows[{idx.ident}]({base.ident})" if base.ident else None)
         return None
 
+    def arr_bool_select(ex, base, idx, path, node):
+        # a[b] for a boolean array b of a's shape: the entries of a at the True positions of b, in C order
+        if isinstance(base, SArr) and isinstance(idx, SArr) and idx.dtype == "bool" and idx.rank == base.rank and not (base.rank == 2 and idx.rank == 1):
+            ex.safe(path, "bool-index-shape", And(*[x == y for x, y in zip(base.shape, idx.shape)]), node)
+            flat_b = arr.ravel_arr(idx, "C")
+            flat_a = arr.ravel_arr(base, "C")
+            for ax in arr.ravel_axioms():
+                path.assume(ax)
+            if flat_b.ident is None:
+                raise Unsupported("boolean selection without identity", node)
+            sel, _rnk, cnt = arr.sel_fns(flat_b.ident)
+            for ax in arr.sel_axioms(flat_b):
+                path.assume(ax)
+            return SArr((cnt,), lambda i, flat_a=flat_a, sel=sel: flat_a.at((sel(i[0]),)), base.dtype, ident=None)
+        return None
+
     ex.hooks.setdefault("subscript", []).append(arr_subscript)
+    ex.hooks.setdefault("subscript", []).append(arr_bool_select)
 
     def arr_cmp(ex, op, a, b, path, node):
         # element-wise comparison of two arrays of equal shape (broadcasting is not modelled: shapes must agree)
